@@ -231,6 +231,16 @@ impl Insert {
                 MAX_NUM_ROWS
             );
         }
+        // Make sure that the string pool has room for all the new strings.
+        if !string_pool
+            .can_intern_all(new_rows.iter().flatten().filter_map(Value::as_str))
+        {
+            invalid_input!(
+                "Cannot insert into table {:?}: too many distinct strings in \
+                 the database",
+                self.table_name
+            );
+        }
         // Insert the new rows into the table.
         for values in new_rows.into_iter() {
             let keys: Vec<Value> = key_indices
@@ -784,6 +794,40 @@ impl Update {
                     );
                 }
                 keys_set.insert(keys);
+            }
+        }
+        // Make sure that the string pool has room for any new strings, by
+        // trying out the update on a copy of the pool.
+        let num_new_refs = updates.iter().filter(|(_, v)| v.is_str()).count()
+            * should_update.iter().filter(|&&is_updated| is_updated).count();
+        if !string_pool.has_room_for(num_new_refs) {
+            let mut trial_pool = string_pool.clone();
+            for (value_refs, &is_updated) in
+                rows.iter().zip(should_update.iter())
+            {
+                if !is_updated {
+                    continue;
+                }
+                let mut value_refs = value_refs.clone();
+                for (column_name, value) in updates.iter() {
+                    let index =
+                        table.index_for_column_name(column_name).unwrap();
+                    value_refs[index].remove(&mut trial_pool);
+                    value_refs[index] = match value {
+                        Value::Str(string) => {
+                            match trial_pool.try_incref(string.clone()) {
+                                Some(string_ref) => ValueRef::Str(string_ref),
+                                None => invalid_input!(
+                                    "Cannot update table {:?}: too many \
+                                     distinct strings in the database",
+                                    self.table_name
+                                ),
+                            }
+                        }
+                        Value::Int(number) => ValueRef::Int(*number),
+                        Value::Null => ValueRef::Null,
+                    };
+                }
             }
         }
         // Update the rows.
